@@ -7,16 +7,19 @@
                      pinMode(pin, INPUT_PULLUP);
                      __redu_button_prev_<b>  = (digitalRead(pin) == HIGH);
                      __redu_button_value_<b> = __redu_button_prev_<b>;
-                 setup pass over loop_body (ButtonDecl *inside* the main loop body):
-                     pinMode(pin, INPUT_PULLUP);            -- and nothing else: no setup sample
+                 setup pass over loop_body (ButtonDecl at the top level of the main-loop body):
+                     pinMode(pin, INPUT_PULLUP);
+                     __redu_button_prev_<b>  = (digitalRead(pin) == HIGH);      -- the same setup sample
+                     __redu_button_value_<b> = __redu_button_prev_<b>;
      emitter.py  ButtonPoll (parser.py puts one per button at the head of loop()):
                      bool next = (digitalRead(pin) == HIGH);
+                     value = next;
                      if (next && !prev) { on_click(); }      -- only when on_click is given
                      prev  = next;
-                     value = next;
      parser.py   b.is_pressed()  ->  (__redu_button_value_<b> ? 1 : 0)
-   Note the order inside the poll: the handler runs *before* [value] is updated, so an
-   is_pressed() evaluated inside the handler still sees the previous pass's sample. *)
+   Note the order inside the poll: [value] is updated *before* the handler runs (so an is_pressed()
+   evaluated inside the handler sees the sample of this pass), the edge test uses the previous
+   sample [prev], which is updated after the handler. *)
 From Coq Require Import List Bool Arith.
 Import ListNotations.
 
@@ -34,25 +37,26 @@ Inductive bev :=
 (* the two globals *)
 Definition b_globals : bstate := {| b_prev := false; b_value := false |}.
 
-(* setup(): the sample is taken only for a declaration before the main loop *)
+(* setup(): one sample, whichever of the two emitter passes (over setup_body / over loop_body) sees the declaration *)
 Definition b_setup (pl : place) (s0 : bool) : bstate * list bev :=
   match pl with
   | BeforeLoop => ({| b_prev := s0; b_value := s0 |}, [BRead s0])
-  | LoopTop => (b_globals, [])
+  | LoopTop => ({| b_prev := s0; b_value := s0 |}, [BRead s0])
   end.
 
 Definition b_is_pressed (st : bstate) : bool := b_value st.
 
 (* handler: None = no on_click; Some n = a handler that evaluates is_pressed() n times *)
 Definition b_poll (h : option nat) (st : bstate) (next : bool) : bstate * list bev :=
+  let st1 := {| b_prev := b_prev st; b_value := next |} in          (* value = next; *)
   let fire :=
     match h with
-    | Some n => if next && negb (b_prev st)
-                then BClick :: repeat (BPrintH (b_is_pressed st)) n
+    | Some n => if next && negb (b_prev st1)                         (* if (next && !prev) on_click(); *)
+                then BClick :: repeat (BPrintH (b_is_pressed st1)) n
                 else []
     | None => []
     end in
-  ({| b_prev := next; b_value := next |}, BRead next :: fire).
+  ({| b_prev := next; b_value := b_value st1 |}, BRead next :: fire).   (* prev = next; *)
 
 (* one loop() pass: the poll, then [calls] evaluations of is_pressed() in the body *)
 Definition b_pass (h : option nat) (st : bstate) (p : bool * nat) : bstate * list bev :=
@@ -66,7 +70,7 @@ Fixpoint b_run (h : option nat) (st : bstate) (ps : list (bool * nat)) : list (l
   | p :: r => snd (b_pass h st p) :: b_run h (fst (b_pass h st p)) r
   end.
 
-(* the firmware from power-up: setup sample s0 (ignored for LoopTop), then the passes *)
+(* the firmware from power-up: setup sample s0, then the passes *)
 Definition dev_run (pl : place) (h : option nat) (s0 : bool) (ps : list (bool * nat)) : list (list bev) :=
   b_run h (fst (b_setup pl s0)) ps.
 
